@@ -159,6 +159,15 @@ class Evaluator:
             finally:
                 if s.finalbody:
                     self.exec_block(s.finalbody, env)
+        elif isinstance(s, ast.For):
+            it = self.eval(s.iter, env)
+            if isinstance(it, dict):
+                it = tuple(it.items()) if getattr(s.iter, "func", None) is None else it
+            if not isinstance(it, (tuple, list)):
+                raise _Return(Unknown(f"for over {ast.unparse(s.iter)}"))
+            for item in it:
+                self.assign(s.target, item, env)
+                self.exec_block(s.body, env)
         elif isinstance(s, ast.Pass):
             return
         elif isinstance(s, ast.Global):
@@ -324,6 +333,10 @@ class Evaluator:
                 return getattr(recv, m)(args[0])
             if isinstance(recv, dict) and m == "get" and args and not isinstance(args[0], Unknown):
                 return recv.get(args[0], args[1] if len(args) > 1 else None)
+            if isinstance(recv, dict) and m == "items" and not args:
+                return tuple(recv.items())
+            if isinstance(recv, dict) and m in ("keys", "values") and not args:
+                return tuple(getattr(recv, m)())
             if isinstance(recv, Unknown) and isinstance(e.func.value, ast.Name) is False:
                 pass
         if d:
@@ -343,6 +356,11 @@ class Evaluator:
                 if isinstance(o, Obj) and all(isinstance(x, Sym) for x in ts):
                     return any(x.name == o.cls or x.name.split(".")[-1] == o.cls.split(".")[-1] for x in ts)
                 return Unknown("isinstance")
+            if last == "setattr" and len(args) == 3 and isinstance(args[0], Obj) and isinstance(args[1], str):
+                args[0].fields[args[1]] = args[2]
+                return None
+            if last == "getattr" and len(args) >= 2 and isinstance(args[0], Obj) and isinstance(args[1], str):
+                return args[0].fields.get(args[1], args[2] if len(args) > 2 else Unknown("attr"))
             if last == "bool" and len(args) == 1:
                 return args[0] if isinstance(args[0], Unknown) else self.truth(args[0])
             if last == "str" and len(args) == 1 and isinstance(args[0], (str, bool, int)):
